@@ -219,12 +219,21 @@ def initOf (kind : String) (args : List String) : Option (InitKind Float) :=
   | "xaviernormal", [a, b] => do let x ← parseI a; let y ← parseI b; pure (.xavierNormal (some (x, y)))
   | _, _ => none
 
+/-- raw draws for a random constructor; when the harness reported none (concurrency runs call the random
+    constructors without the seed/draw procedure) the values are unknown and replaced by zeros: such
+    results are only ever observed through their shape -/
+def rawOr (raw : Option (List Float × List Float)) (dims : List Int) : List Float × List Float :=
+  match raw with
+  | some r => r
+  | none =>
+    let n := if validInputDims dims then prod (natDims dims) else 0
+    (List.replicate n 0.0, List.replicate n 0.0)
+
 /-- `Initializer.Init(shape)` with the tracked CPU config; `none` = raw draws missing -/
 def initCall (k : InitKind Float) (shape : List Int) (raw : Option (List Float × List Float)) : Option (Out (Tensor Float)) :=
   match initFamily k with
   | .ok fam =>
-    -- without raw draws only the validation outcome can be computed (then `vRandom` is `some .err`)
-    let (us, zs) := raw.getD ([], [])
+    let (us, zs) := rawOr raw shape
     vRandom fam shape us zs
   | .err => some .err
   | .panic => some .panic
@@ -306,7 +315,7 @@ def exec (s : St) (dst : Option String) (cmd : String) (args : List String) : St
           | some (okc, tr), some ds, some x, some y =>
               if !okc then failBind s dst .err else
               let fam : Family Float := if cmd == "randu" then .uniform x y else .normal x y
-              let (us, zs) := raw.getD ([], [])
+              let (us, zs) := rawOr raw ds
               (match vRandom fam ds us zs with
                | some o => runBind s dst (do let t ← liftOut o; hLeaf t tr)
                | none => failBind s dst .skip)
@@ -411,7 +420,9 @@ def exec (s : St) (dst : Option String) (cmd : String) (args : List String) : St
                     let wk : InitKind Float := match wi with | some (some k) => k | _ => .xavierUniform (some (i, o))
                     let bk : InitKind Float := match bi with | some (some k) => k | _ => .full (some 0.0)
                     -- the weight initializer draws first; the bias initializer continues the same stream
-                    let (us, zs) := raw.getD ([], [])
+                    let (us, zs) := match raw with
+                      | some r => r
+                      | none => (List.replicate (2 * o.toNat) 0.0, List.replicate (2 * o.toNat) 0.0)
                     let n := o.toNat
                     let wUsesU := match initFamily wk with | .ok (.uniform _ _) => true | _ => false
                     let wUsesN := match initFamily wk with | .ok (.normal _ _) => true | _ => false
